@@ -465,6 +465,22 @@ EXTRA4 = {
  "C20": dict(
   text=" The configured range is a scenario dimension: start_index x end_index x one-shot / continuous on a source whose get-entries serves more than its announced STH covers (clause RangeWithinSTH, named clauses ContIgnoresRange and RangeIsTheJob); MigrillianNoClamp.cfg must be refuted by TLC (Bounded); trace validation names overruns through the defect step OverrunRange."),
 }
+# round 6 / 7 extensions (session 3, late)
+EXTRA5 = {
+ "C03": dict(
+  technique="; reading clause OwnOctetsOnly (what a reader reports about a certificate is a function of its own octets): certificates as records of their OPTIONAL parts, a carrying reader refuted by TLC (MCPrecertBundleRefute.cfg), all bundles of 9 kinds (length <= 3 quick / <= 4 thorough) read through 9 entry points (singular / plural, certificate / TBS, DER / PEM / leaf entry) and compared position by position with the embedded list, ContainsSCT and the same octets read alone",
+  note=" Unique identifiers and algorithm parameters are observed only differentially."),
+ "C04": dict(
+  technique="; sibling entry points as dimensions of RFC6962Wire.tla: stored-leaf builders (ExtraDataForChain, BuildLogLeaf, ExtraDataForChainHash, BuildLogLeafWithChainHash; chains of 0, 1, many certificates; hashes nil .. 257 bytes; alone and behind add-chain / add-pre-chain + get-entries of a real instance in direct and indirect mode) and SCT-list readers (the list alone and carried in a certificate extension as OCTET STRING, with trailing byte, wrong tag, absent; through ParseCertificate(s), ParseTBSCertificate, Certificate(s)FromPEM, ParseSCTsFromCertificate DER / PEM, ParseSCTsFromSCTList, ExtractSCT)",
+  note=" Named clauses ChainHashStore, NoHashNoReference, ServedIsRFC; a non-fatal parser error counts as an error."),
+ "C17": dict(
+  technique="; whole log lists behind one distributor (DistributorList.tla: four logs x state x interval x get-roots answer per refresh history x constructor option x policy x method; families R / T / H exhaustive, 12800 cases, S simulated) replayed on NewDistributor(+options) / RefreshRoots / AddChain | AddPreChain under virtual time",
+  note=" Named clauses KnownByLastRefresh, OptionKnowsNothing, PendingLoad; every log answers add-chain at once in the list cases."),
+}
+for _pid, _e in EXTRA5.items():
+    EXTRA4.setdefault(_pid, {})
+    for _k, _v in _e.items():
+        EXTRA4[_pid][_k] = EXTRA4[_pid].get(_k, "") + _v
 for _pid, _e in EXTRA4.items():
     EXTRA3.setdefault(_pid, {})
     for _k, _v in _e.items():
